@@ -311,6 +311,28 @@ class Gen:
             e = "1" + "+(1" * n + ")" * n
         return "10 A=%s\n" % e
 
+    def wide_program(self):
+        """Many more distinct variables, arrays and strings than a screenful of BASIC holds
+        (65 to 260): containers whose order shows only beyond some size, batched emission."""
+        r = self.r
+        names = [a + b for a in "ABCDEGHJKLMPQRSUVWXYZ" for b in "0123456789ABXYZ"
+                 if a + b not in ("AS", "GO")]
+        r.shuffle(names)
+        mix = r.choice(((1, 0, 0, 0), (0, 1, 0, 0), (0, 0, 1, 0), (0, 0, 0, 1), (3, 2, 1, 1), (1, 1, 1, 1),
+                        (1, 1, 0, 0), (1, 1, 0, 0)))
+        # one kind: just beyond 64 / 128 / 256 of it; several kinds: enough for each to pass 64
+        n = r.choice((65, 66, 70, 100, 129, 200, 260)) if sum(mix) <= 2 else r.choice((280, 310))
+        forms = []
+        for v in names[:n]:
+            k = r.choices((0, 1, 2, 3), weights=mix)[0]
+            forms.append(("%s=%d" % (v, r.randint(0, 9)), '%s$="%s"' % (v, v.lower()),
+                          "%s(%d)=%s" % (v, r.randint(0, 10), r.choice(("1", "RND(5)"))),
+                          '%s$(%d)=%s' % (v, r.randint(0, 10), r.choice(('"x"', "INKEY$"))))[k])
+        per = r.choice((1, 4, 9))
+        out = ["%d %s" % (10 + i, ":".join(forms[a:a + per]))
+               for i, a in enumerate(range(0, len(forms), per))]
+        return "\n".join(out) + "\n"
+
     def program(self, flavour=None, refuse=None):
         r = self.r
         if flavour is None and refuse is None:
@@ -387,6 +409,21 @@ class Gen:
 
 def gen_program(rng, flavour=None, refuse=None):
     return Gen(rng).program(flavour, refuse)
+
+
+def gen_wide_program(rng):
+    return Gen(rng).wide_program()
+
+
+def late_refusals(text):
+    """Relatives of an accepted program that are refused only *after* most passes ran: the same
+    lines renumbered beyond 32699, and the same lines plus a jump to a line that is not there.
+    What such a refusal leaves behind must not reach the next conversion of the accepted text."""
+    lines = [x for x in text.replace("\r", "\n").split("\n") if x.strip() and x.strip("\x00")]
+    bodies = [x.strip().partition(" ")[2] for x in lines]
+    big = "".join("%d %s\n" % (40000 + 10 * i, b) for i, b in enumerate(bodies))
+    undefined = "".join(x.strip() + "\n" for x in lines) + "32698 GOTO 32697\n"
+    return (("toolarge", big), ("undefined", undefined))
 
 
 COMMON_MAPS = ({"A$": 10, "D$()": 64}, {"N$": 64, "Q1$": 200, "G$()": 10}, {"ZZ$": 1000})
